@@ -85,5 +85,26 @@ McCarriersSeqU == SeqCarriers(McSeqMixU)
 McHeavySeq == {}
 McMaxInSeq == [d \in {"in", "out"} |-> Mx(1, 1)]
 McDev6 == {"Dev_CachePassEmptiesTwoSlots"}
+\* ------------------------------------------------------------------ the receive-side layer
+NoAnswering == {}
+\* classes after which the node writes: its handshake response (accepting) / its protocol handshake (after the response to its dial),
+\* answers to requests, and requests of its own (a higher status / an orphan block make it ask for blocks)
+McAnswering == {"HsGood", "OhsGood", "GetStatus_Good", "GetBlocks_Good", "GetBlocksCL_Good", "GetConfirms_Good", "DiscReq_Good",
+                "Status_Higher", "Blocks_Good", "GetBlocks_Range", "Txs_Good"}
+\* quick: the status answer (short deadline), the blocks answer (frame deadline), a malformed frame behind a write in flight,
+\* a transaction the node passes on to all its peers (the remote itself and the bystander)
+McRxMixQ == {"GetStatus_Good", "GetBlocks_Good", "FrBadMagic", "Txs_Good"}
+\* thorough: every kind of answer and of own request, a kept message that is not answered, malformed input
+McRxMixT == {"GetStatus_Good", "GetBlocks_Good", "GetBlocksCL_Good", "GetConfirms_Good", "DiscReq_Good", "Status_Higher", "Blocks_Good",
+             "Txs_Good", "FrHeartbeat", "FrBadMagic", "GetStatus_Trunc"}
+RxRows(mix) == {t \in ClassTable : t[1] \in {"HsGood", "OhsGood", "Phs_Good", "GetStatus_Good"} \cup mix}
+RxCarriers(mix) == {"HsGood", "OhsGood", "Phs_Good"} \cup {c \in mix : \E t \in ClassTable : t[1] = c /\ "Est" \in t[2] /\ t[3] = "keep"}
+McTableRxQ == RxRows(McRxMixQ)
+McTableRxT == RxRows(McRxMixT)
+McCarriersRxQ == RxCarriers(McRxMixQ)
+McCarriersRxT == RxCarriers(McRxMixT)
+McMaxInRxQ == [d \in {"in", "out"} |-> Mx(1, 1)]
+McMaxInRxT == [d \in {"in", "out"} |-> Mx(1, 2)]
+McDev7 == {"Dev_FailedWriteSelfDeadlock"}
 UniqueRows == \A c \in Classes : \A ph \in Phases : Cardinality(Rows(c, ph)) <= 1
 ====
